@@ -30,6 +30,7 @@ def main(tier):
     chk.run("R-DUPNAME", B.dupname, r, floor=2)
     chk.run("R-PATHEND", RR.pathend, r, floor=5)
     chk.run("R-VISIBLE", RR.visible, r, floor=1)
+    chk.run("R-SCOPEVIS", RR.scopevis, r, s, cx.sites, floor=6)
     chk.run("R-SKIPLOSS", T.skiploss, r, s, cx.sites, modules=("symbol_resolver.py",), floor=1)
     chk.run("R-TRAVPARAM", T.travparam, r, s, sr_sites, floor=30, control=lambda: T.control_travparam(r))
     return chk.finish()
